@@ -90,7 +90,14 @@ func (g *pg) tryExpr(ty Ty, d int, sc scope) val.V {
 			body = append(body, g.expr(TAny, d-1, sc))
 		}
 	}
-	if g.chance("trythrow", 2) {
+	shape := g.pick("tryshape", 8)
+	hasCatch := shape <= 5
+	hasFin := shape >= 3 && shape != 7
+	throwOdds := 2
+	if !hasCatch && g.inTry == 0 {
+		throwOdds = 8 // nothing here catches it: keep most programs running
+	}
+	if g.chance("trythrow", throwOdds) {
 		body = append(body, g.throwPoint(d, sc))
 		if g.chance("afterthrow", 3) {
 			body = append(body, call("trace!", g.nextTrace())) // must never run
@@ -100,9 +107,6 @@ func (g *pg) tryExpr(ty Ty, d int, sc scope) val.V {
 	g.inTry--
 
 	form := append([]val.V{sym("try")}, body...)
-	shape := g.pick("tryshape", 8)
-	hasCatch := shape <= 5
-	hasFin := shape >= 3 && shape != 7
 	var cname string
 	if hasCatch {
 		cname = rapid.SampledFrom(catchNames).Draw(g.t, "cname")
@@ -114,7 +118,11 @@ func (g *pg) tryExpr(ty Ty, d int, sc scope) val.V {
 		if g.chance("hstmt", 2) {
 			h = append(h, call("trace!", sym(cname)))
 		}
-		switch c := g.pick("handler", 10); {
+		hk := g.pick("handler", 14)
+		if (hk == 3 || hk == 4) && g.inTry == 0 && g.chance("escape", 2) {
+			hk = 9 // half of the escaping handlers become ordinary ones
+		}
+		switch c := hk; {
 		case c <= 2:
 			h = append(h, sym(cname)) // the caught object as the value of the try form
 			g.use("handler-returns-caught")
